@@ -140,7 +140,9 @@ def tree_tensors(o, path=()):
         yield from tree_tensors(vars(o), path)
 
 
-def check(cfg, backend, mode, hist):
+def check(cfg, backend, mode, hist, resume_at=None):
+    """resume_at = k: before step k both optimizers are replaced by freshly constructed ones (compiled resp. eager) that
+    load the checkpoint saved from the eager run - a resumed job must keep computing the same updates."""
     import torch
     import torch._dynamo
     from distributed_shampoo.shampoo_types import ShampooPT2CompileConfig
@@ -154,6 +156,17 @@ def check(cfg, backend, mode, hist):
     u = common.UNIT[cfg["pdtype"]]
     msgs, digests = [], []
     for t, mask in enumerate(hist):
+        if resume_at is not None and t == resume_at:
+            from . import c09
+
+            blob = c09.save(twin, tparams)
+            pv = [p.detach().clone() for p in tparams]
+            params = [torch.nn.Parameter(v.clone()) for v in pv]
+            _, opt = seq.build(cfg, params=params, compile_cfg=ShampooPT2CompileConfig(pytorch_compile_backend=backend, enable_shampoo_pt2_dynamic_shape=mode))
+            opt.load_distributed_state_dict(c09.load_bytes(blob), key_to_param=iter(c09.names(params)))
+            tparams = [torch.nn.Parameter(v.clone()) for v in pv]
+            _, twin = seq.build(cfg, params=tparams)
+            twin.load_distributed_state_dict(c09.load_bytes(blob), key_to_param=iter(c09.names(tparams)))
         seq.set_grads(params, cfg, t, mask)
         for a, b in zip(params, tparams):
             b.grad = None if a.grad is None else a.grad.clone()
@@ -202,8 +215,12 @@ def check(cfg, backend, mode, hist):
 
 def run_unit(unit):
     res = {"evals": 0, "transitions": 0, "states": set(), "outcomes": set(), "nontrivial_count": 0, "violations": [], "samples": [], "stats": {"compiled_graphs": 0, "min_graphs_per_run": 10 ** 6}}
-    for hi, hist in enumerate(HISTS):
-        msgs, digests, graphs = check(unit["cfg"], unit["backend"], unit["mode"], hist)
+    runs = [(h, None) for h in HISTS]
+    if not unit.get("expect_raise"):
+        runs.append((H3, 4))  # checkpoint after 4 steps (past the first refresh), resume into fresh optimizers
+    for hi, (hist, resume_at) in enumerate(runs):
+        msgs, digests, graphs = check(unit["cfg"], unit["backend"], unit["mode"], hist, resume_at)
+        res["stats"]["resumed_runs"] = res["stats"].get("resumed_runs", 0) + int(resume_at is not None)
         res["evals"] += 1
         res["transitions"] += len(digests)
         res["states"].update(digests)
@@ -214,7 +231,7 @@ def run_unit(unit):
         if graphs > 0:
             res["nontrivial_count"] += 1
         if msgs:
-            res["violations"].append({"case": {"cfg": unit["cfg"], "backend": unit["backend"], "mode": unit["mode"], "hist": hist}, "msg": f"{msgs[0]} [cfg {brief(unit['cfg'])}]", "kind": msgs[0].split(":")[-1][:30]})
+            res["violations"].append({"case": {"cfg": unit["cfg"], "backend": unit["backend"], "mode": unit["mode"], "hist": hist, "resume_at": resume_at}, "msg": f"{msgs[0]}{' (both optimizers resumed from a checkpoint before step %d)' % resume_at if resume_at is not None else ''} [cfg {brief(unit['cfg'])}]", "kind": msgs[0].split(":")[-1][:30]})
     res["samples"].append({"cfg": brief(unit["cfg"]), "backend": unit["backend"], "dynamic": unit["mode"], "history": H1})
     res["states"] = list(res["states"])
     res["outcomes"] = list(res["outcomes"])
@@ -226,4 +243,4 @@ def brief(cfg):
 
 
 def replay(case):
-    return check(case["cfg"], case["backend"], case["mode"], case["hist"])[0]
+    return check(case["cfg"], case["backend"], case["mode"], case["hist"], case.get("resume_at"))[0]
